@@ -793,8 +793,13 @@ func ruleC15ListEndsNonEmpty(c *Ctx) {
 					c.FuncsAnalysed[shortName(f)] = true
 					construct := trimPkgDirs(shortName(f)) + "/" + g.Name() + "-use"
 					safe := listElemSafe(v, r.Block(), al, 0)
-					if !safe {
-						for _, fct := range factsAt(r.Block()) {
+					// non-emptiness established where the element was taken (Back()/Front() of a non-empty list is not
+					// nil) counts as much as where it is used
+					for _, blk := range []*ssa.BasicBlock{r.Block(), cv.Block()} {
+						if safe {
+							break
+						}
+						for _, fct := range factsAt(blk) {
 							b, isB := fct.V.(*ssa.BinOp)
 							if !isB {
 								continue
